@@ -119,6 +119,12 @@ func genOutOps(rt *rapid.T, maxOps, maxLen int, pings bool) []outOp {
 		o.CKind = rapid.IntRange(0, numContentKinds-1).Draw(rt, "ckind")
 		o.Seed = rapid.Uint64().Draw(rt, "seed")
 		o.Len = genLen(rt, maxLen, "len")
+		if i > 0 && rapid.IntRange(0, 4).Draw(rt, "sameContentAsEarlierOp") == 0 {
+			// the content of an earlier message once more (or a prefix / an extension of it): a
+			// compressor with context takeover then refers back to that message
+			prev := ops[rapid.IntRange(0, i-1).Draw(rt, "earlierOp")]
+			o.CKind, o.Seed = prev.CKind, prev.Seed
+		}
 		if o.Kind == "burst" || o.Kind == "cburst" {
 			o.Len = rapid.SampledFrom([]int{0, 100, 5000, 9000, 70000}).Draw(rt, "burstLen")
 			if o.Len > maxLen {
